@@ -98,6 +98,9 @@ func (g *DGen) literal(t *ast.Type, depth int) GT {
 		oneOf := def.Directives.ForName("oneOf") != nil
 		if oneOf {
 			f := def.Fields[g.R.Intn(len(def.Fields))]
+			if f.Type.Name() == def.Name && depth <= 1 {
+				f = def.Fields[0] // never self-referential (generator invariant)
+			}
 			nt := *f.Type
 			nt.NonNull = true
 			n.K = append(n.K, GT{T: "objfield", K: []GT{leaf("name", f.Name), g.literal(&nt, depth-1)}})
